@@ -141,50 +141,35 @@ theorem vDatas_complete (types : List Elem) (hsz : SizesAgree types) (lp : Path)
     simp only [vDatas, bind_ok, vName_ok, vDataHeader_ok types hsz, exists_const]
     exact ⟨(h d (by simp)).1, (h d (by simp)).2, ih (fun d' h' => h d' (by simp [h']))⟩
 
-theorem blockLength_complete (types : List Elem) (lp : Path) (bl : Option Nat) (fields : List FieldDef) (off : Nat)
-    (hend : fieldsEnd types 0 fields = some off) (h : blockLengthViols types lp bl fields = []) :
-    (match Schema.blockLength bl off with
-     | .error _ => (fail .blockLengthTooSmall lp : R Unit)
-     | .ok _ => .ok ()) = .ok () := by
-  unfold blockLengthViols at h
-  rw [hend] at h
-  unfold Schema.blockLength
-  cases bl with
-  | none => rfl
-  | some b =>
-    simp only at h ⊢
-    by_cases hlt : b < off
-    · simp [hlt] at h
-    · simp [hlt]
-
 theorem levelGood_parts (types : List Elem) (l : LevelView) (h : LevelGood types l) :
     (∀ f ∈ l.fields, symbolicName f.name = true ∧ fieldViols types l.path f = []) ∧
     (fieldMinima types 0 l.fields).filterMap (fieldOffsetViol l.path) = [] ∧
-    blockLengthViols types l.path l.blockLength l.fields = [] ∧
+    levelValueViols types l.hdr l.path l.blockLength l.fields l.groups.length l.datas.length = [] ∧
     (∀ g ∈ l.groups, symbolicName (gName g) = true ∧
       headerViols types (l.path ++ [gName g]) (gDim g) ["numInGroup", "blockLength"] false = []) ∧
     (∀ d ∈ l.datas, symbolicName d.name = true ∧ headerViols types (l.path ++ [d.name]) d.type ["length"] true = []) := by
   obtain ⟨h1, h2, h3, h4⟩ := h
   unfold levelViols at h4
-  simp only [List.append_eq_nil_iff, List.flatMap_eq_nil_iff] at h4
-  obtain ⟨⟨⟨⟨a, b⟩, c⟩, d⟩, e⟩ := h4
-  exact ⟨fun f hf => ⟨h1 f hf, a f hf⟩, b, c, fun g hg => ⟨h2 g hg, d g hg⟩, fun x hx => ⟨h3 x hx, e x hx⟩⟩
+  unfold levelValueViols
+  simp only [List.append_eq_nil_iff, List.flatMap_eq_nil_iff] at h4 ⊢
+  obtain ⟨⟨⟨⟨⟨⟨⟨a, b⟩, c1⟩, c2⟩, c3⟩, c4⟩, d⟩, e⟩ := h4
+  exact ⟨fun f hf => ⟨h1 f hf, a f hf⟩, b, ⟨⟨⟨c1, c2⟩, c3⟩, c4⟩, fun g hg => ⟨h2 g hg, d g hg⟩,
+    fun x hx => ⟨h3 x hx, e x hx⟩⟩
 
 section LevelsComplete
 variable (hfp : FpAgree) (types : List Elem) (hnr : NoTopLevelRef types)
   (hsz : SizesAgree types)
 include hfp hnr hsz
 
-theorem level_complete (lp : Path) (bl : Option Nat) (fields : List FieldDef) (groups : List GroupDef)
-    (datas : List DataDef) (hl : LevelGood types ⟨lp, bl, fields, groups, datas⟩) :
+theorem level_complete (hdr : String) (hv : HdrValid types hdr) (lp : Path) (bl : Option Nat) (fields : List FieldDef)
+    (groups : List GroupDef) (datas : List DataDef) (hl : LevelGood types ⟨lp, bl, fields, groups, datas, hdr⟩) :
     ∃ off, vFields types lp 0 fields = .ok off ∧
-      (match Schema.blockLength bl off with
-       | .error _ => (fail .blockLengthTooSmall lp : R Unit)
-       | .ok _ => .ok ()) = .ok () ∧ vDatas types lp datas = .ok () := by
+      vLevelValues types hdr lp bl off groups.length datas.length = .ok () ∧ vDatas types lp datas = .ok () := by
   obtain ⟨a, b, c, _, e⟩ := levelGood_parts types _ hl
   obtain ⟨off, hoff⟩ := vFields_complete hfp types hnr hsz lp fields 0 a b
   have hend := (vFields_ok hfp types hsz lp fields 0 off hoff).2.2
-  exact ⟨off, hoff, blockLength_complete types lp bl fields off hend c, vDatas_complete types hsz lp datas e⟩
+  exact ⟨off, hoff, (vLevelValues_ok hfp types hdr hv lp bl fields off _ _ hend ()).mpr c,
+    vDatas_complete types hsz lp datas e⟩
 
 mutual
   theorem vGroup_complete : ∀ (g : GroupDef) (lp : Path),
@@ -192,8 +177,9 @@ mutual
       headerViols types (lp ++ [gName g]) (gDim g) ["numInGroup", "blockLength"] false = [] →
       (∀ l ∈ groupLevels lp g, LevelGood types l) → vGroup types lp g = .ok ()
     | .mk n id dim bl fields groups datas a, lp, hn, hh, hl => by
-      have hself := hl ⟨lp ++ [n], bl, fields, groups, datas⟩ (by simp [groupLevels])
-      obtain ⟨off, h1, h2, h3⟩ := level_complete hfp types hnr hsz _ bl fields groups datas hself
+      have hself := hl ⟨lp ++ [n], bl, fields, groups, datas, dim⟩ (by simp [groupLevels])
+      have hv := hdrValid_of_valid types _ dim _ (by simp) hh
+      obtain ⟨off, h1, h2, h3⟩ := level_complete hfp types hnr hsz dim hv _ bl fields groups datas hself
       obtain ⟨_, _, _, hgs, _⟩ := levelGood_parts types _ hself
       have hsub := vGroups_complete groups (lp ++ [n]) hgs (fun l hm => hl l (by simp [groupLevels, hm]))
       simp only [vGroup, bind_ok, vName_ok, vLevelHeader_ok, exists_const]
@@ -211,26 +197,34 @@ mutual
         (fun l hm => hl l (by simp [groupLevelsL, hm]))
 end
 
-theorem vMessage_complete (m : MessageDef) (hn : symbolicName m.name = true)
-    (hl : ∀ l ∈ messageLevels m, LevelGood types l) : vMessage types m = .ok () := by
-  have hself := hl ⟨msgPath m, m.blockLength, m.fields, m.groups, m.datas⟩ (by simp [messageLevels])
-  obtain ⟨off, h1, h2, h3⟩ := level_complete hfp types hnr hsz _ m.blockLength m.fields m.groups m.datas hself
+theorem vMessage_complete (hdr : String) (hv : HdrValid types hdr) (ht : HdrResolves types hdr "templateId")
+    (m : MessageDef) (hn : symbolicName m.name = true)
+    (htid : headerValueViols types hdr "templateId" m.id (msgPath m) = [])
+    (hl : ∀ l ∈ messageLevels hdr m, LevelGood types l) : vMessage types hdr m = .ok () := by
+  have hself := hl ⟨msgPath m, m.blockLength, m.fields, m.groups, m.datas, hdr⟩ (by simp [messageLevels])
+  obtain ⟨off, h1, h2, h3⟩ := level_complete hfp types hnr hsz hdr hv _ m.blockLength m.fields m.groups m.datas hself
   obtain ⟨_, _, _, hgs, _⟩ := levelGood_parts types _ hself
   have hsub := vGroups_complete hfp types hnr hsz m.groups (msgPath m) hgs
     (fun l hm => hl l (by simp [messageLevels, hm]))
-  simp only [vMessage, bind_ok, vName_ok, exists_const]
-  exact ⟨hn, off, h1, (), h2, (), hsub, h3⟩
+  simp only [vMessage, bind_ok, vName_ok, exists_const, vHeaderValue_ok hfp types hdr _ _ _ _ ht]
+  exact ⟨hn, htid, off, h1, (), h2, (), hsub, h3⟩
 
 end LevelsComplete
 
 theorem messagesPhase_complete (hfp : FpAgree) (s : SchemaDef)
     (hnr : NoTopLevelRef s.types) (hsz : SizesAgree s.types)
     (hh : headerViols s.types ["schema"] s.headerType ["schemaId", "templateId", "version", "blockLength"] false = [])
+    (hid : headerValueViols s.types s.headerType "schemaId" s.id ["schema"] = [])
+    (hver : headerValueViols s.types s.headerType "version" s.version ["schema"] = [])
+    (htid : ∀ m ∈ s.messages, headerValueViols s.types s.headerType "templateId" m.id (msgPath m) = [])
     (hm : ∀ m ∈ s.messages, symbolicName m.name = true) (hl : ∀ l ∈ allLevels s, LevelGood s.types l) :
     messagesPhase s = .ok () := by
-  simp only [messagesPhase, bind_ok, vLevelHeader_ok, exists_const, allOk_ok]
-  refine ⟨hh, fun m hmm => ?_⟩
-  exact vMessage_complete hfp s.types hnr hsz m (hm m hmm)
+  have hr := fun name hn => hdrResolves_of_valid s.types ["schema"] s.headerType _ hh name (Or.inl hn)
+  have hv := hdrValid_of_valid s.types _ s.headerType _ (by simp) hh
+  simp only [messagesPhase, bind_ok, vLevelHeader_ok, exists_const, allOk_ok,
+    vHeaderValue_ok hfp _ _ _ _ _ _ (hr "schemaId" (by simp)), vHeaderValue_ok hfp _ _ _ _ _ _ (hr "version" (by simp))]
+  refine ⟨hh, hid, hver, fun m hmm => ?_⟩
+  exact vMessage_complete hfp s.types hnr hsz s.headerType hv (hr _ (by simp)) m (hm m hmm) (htid m hmm)
     (fun l hlm => hl l (by unfold allLevels; exact List.mem_flatMap.mpr ⟨m, hmm, hlm⟩))
 
 
@@ -238,21 +232,6 @@ theorem messagesPhase_complete (hfp : FpAgree) (s : SchemaDef)
 
 theorem ite_nil_iff {α} (c : Prop) [Decidable c] (x : α) : (if c then [x] else []) = [] ↔ ¬ c := by
   by_cases h : c <;> simp [h]
-
-theorem repeats_cons_nil {α} (key : α → String) (seen : List String) (x : α) (xs : List α) :
-    repeats key seen (x :: xs) = [] ↔ key x ∉ seen ∧ repeats key (key x :: seen) xs = [] := by
-  by_cases hm : key x ∈ seen
-  · simp [repeats, hm]
-  · simp [repeats, hm]
-
-theorem repeatsNat_cons_nil {α} (key : α → Nat) (seen : List Nat) (x : α) (xs : List α) :
-    repeatsNat key seen (x :: xs) = [] ↔ key x ∉ seen ∧ repeatsNat key (key x :: seen) xs = [] := by
-  by_cases hm : key x ∈ seen
-  · simp [repeatsNat, hm]
-  · simp [repeatsNat, hm]
-
-theorem not_contains {α} [BEq α] [LawfulBEq α] (l : List α) (x : α) (h : x ∉ l) : (!l.contains x) = true := by
-  simpa using h
 
 theorem pVersions_complete (a : Attrs) (p : Path) (h : attrsNumeric a = true) : pVersions a p = .ok () :=
   (pVersions_ok a p ()).mpr h
@@ -455,7 +434,7 @@ mutual
       (∀ l ∈ groupLevels lp g, LevelParsed l) → pGroup lp g = .ok ()
     | .mk n id dim bl fields groups datas a, lp, hg, hl => by
       obtain ⟨b1, b2, b3, b4, r1, r2, r3⟩ :=
-        levelParsed_parts _ (hl ⟨lp ++ [n], bl, fields, groups, datas⟩ (by simp [groupLevels]))
+        levelParsed_parts _ (hl ⟨lp ++ [n], bl, fields, groups, datas, dim⟩ (by simp [groupLevels]))
       obtain ⟨g1, g2, g3⟩ := (groupAttrViols_nil _ _).mp hg
       simp only [gName, gId, gAttrs] at g1 g2 g3
       simp only at b1 b2 b3 b4 r1 r2 r3
@@ -480,7 +459,7 @@ end
 
 theorem pMessages_complete : ∀ (ms : List MessageDef) (names : List String) (ids : List Nat),
     repeats MessageDef.name names ms = [] → repeatsNat MessageDef.id ids ms = [] →
-    (∀ m ∈ ms, msgAttrViols m = [] ∧ ∀ l ∈ messageLevels m, LevelParsed l) →
+    (∀ m ∈ ms, msgAttrViols m = [] ∧ ∀ l ∈ messageLevels hdr m, LevelParsed l) →
     pMessages names ids ms = .ok () := by
   intro ms
   induction ms with
@@ -491,7 +470,7 @@ theorem pMessages_complete : ∀ (ms : List MessageDef) (names : List String) (i
     rw [repeatsNat_cons_nil] at hi
     obtain ⟨ma, ml⟩ := hm m (by simp)
     obtain ⟨b1, b2, b3, b4, r1, r2, r3⟩ :=
-      levelParsed_parts _ (ml ⟨msgPath m, m.blockLength, m.fields, m.groups, m.datas⟩ (by simp [messageLevels]))
+      levelParsed_parts _ (ml ⟨msgPath m, m.blockLength, m.fields, m.groups, m.datas, hdr⟩ (by simp [messageLevels]))
     obtain ⟨g1, g2, g3⟩ := (msgAttrViols_nil m).mp ma
     simp only at b1 b2 b3 b4 r1 r2 r3
     simp only [pMessages, bind_ok, need_ok, pVersions_ok, exists_const, fitsBits32, optFits64]
@@ -575,7 +554,7 @@ mutual
   theorem cGroup_complete : ∀ (g : GroupDef) (lp : Path), isKeyword (gName g) = false →
       (∀ l ∈ groupLevels lp g, LevelNotKw l) → cGroup lp g = .ok ()
     | .mk n id dim bl fields groups datas a, lp, hn, hl => by
-      obtain ⟨k1, k2, k3⟩ := hl ⟨lp ++ [n], bl, fields, groups, datas⟩ (by simp [groupLevels])
+      obtain ⟨k1, k2, k3⟩ := hl ⟨lp ++ [n], bl, fields, groups, datas, dim⟩ (by simp [groupLevels])
       simp only [cGroup, bind_ok, cName_ok, exists_const, allOk_ok]
       exact ⟨by simpa [gName] using hn, k1, (),
         cGroups_complete groups _ k2 (fun l hm => hl l (by simp [groupLevels, hm])), k3⟩
@@ -589,8 +568,8 @@ mutual
 end
 
 theorem cMessage_complete (m : MessageDef) (hn : isKeyword m.name = false)
-    (hl : ∀ l ∈ messageLevels m, LevelNotKw l) : cMessage m = .ok () := by
-  obtain ⟨k1, k2, k3⟩ := hl ⟨msgPath m, m.blockLength, m.fields, m.groups, m.datas⟩ (by simp [messageLevels])
+    (hl : ∀ l ∈ messageLevels hdr m, LevelNotKw l) : cMessage m = .ok () := by
+  obtain ⟨k1, k2, k3⟩ := hl ⟨msgPath m, m.blockLength, m.fields, m.groups, m.datas, hdr⟩ (by simp [messageLevels])
   simp only [cMessage, bind_ok, cName_ok, exists_const, allOk_ok]
   exact ⟨hn, k1, (), cGroups_complete m.groups _ k2 (fun l hm => hl l (by simp [messageLevels, msgPath, hm])), k3⟩
 
@@ -678,7 +657,7 @@ theorem no_violation_check_ok (hfp : FpAgree) (s : SchemaDef)
     (hnr : NoTopLevelRef s.types) (h : violations s = []) : check s = .ok () := by
   unfold violations at h
   simp only [List.append_eq_nil_iff, List.flatMap_eq_nil_iff] at h
-  obtain ⟨⟨⟨⟨⟨⟨va, vd⟩, vn⟩, ve⟩, vc⟩, vh⟩, vl⟩ := h
+  obtain ⟨⟨⟨⟨⟨⟨⟨⟨⟨va, vd⟩, vn⟩, ve⟩, vc⟩, vh⟩, vid⟩, vver⟩, vtid⟩, vl⟩ := h
   obtain ⟨hns, hnames⟩ := nameViols_parts s vn
   have hp := parsePhase_complete s va vd
   obtain ⟨_, _, hnd⟩ := parsePhase_good s hp
@@ -711,7 +690,7 @@ theorem no_violation_check_ok (hfp : FpAgree) (s : SchemaDef)
   have hlev : ∀ l ∈ allLevels s, LevelGood s.types l := fun l hl =>
     ⟨fun f hf => ((hlevN l hl).1 f hf).1, fun g hg => ((hlevN l hl).2.1 g hg).1,
      fun d hd => ((hlevN l hl).2.2 d hd).1, vl l hl⟩
-  have hm := messagesPhase_complete hfp s hnr hsz vh (fun m hmm => (hmsgN m hmm).1) hlev
+  have hm := messagesPhase_complete hfp s hnr hsz vh vid vver vtid (fun m hmm => (hmsgN m hmm).1) hlev
   have hc := cppPhase_complete s hns
     (fun q x hx => ⟨(hnames _ _ (entityNames_elem s q x hx)).2, (hsubE q x hx).2⟩)
     (fun m hmm => (hmsgN m hmm).2)
